@@ -232,6 +232,10 @@ func (c *Ctx) c05Scene(o c05Opts) []c05Mesh {
 		if c.Rng.Intn(6) == 0 {
 			nt = 1
 		}
+		if c.Rng.Intn(25) == 0 {
+			nt = 150 + c.Rng.Intn(300) // a run of faces long enough to cross a 4 KiB boundary of written text
+			c.Note("scene.long-run")
+		}
 		if k == n-1 && c.Rng.Intn(10) == 0 {
 			nt = 0 // an empty mesh in LAST position keeps its group
 			c.Note("scene.empty-last")
@@ -752,7 +756,12 @@ func (c *Ctx) c05FsCase(dir string, k int) {
 	pool := make([]*modeling.Material, np)
 	for i := range pool {
 		tex := fmt.Sprintf("tex_%d.png", i)
-		m := &modeling.Material{Name: fmt.Sprintf("mat_%d", i), SpecularHighlight: float64(10 + i),
+		nm := fmt.Sprintf("mat_%d", i)
+		if c.Rng.Intn(2) == 0 { // punctuation, leading digits, unicode: names are opaque to the codec
+			nm = []string{"panel#2", "#ff8800", "a.b.c", "9lives", "say\"hi\"", "it's", "naïve-é", "漆", "x:y/z", "a#b#c", "mat(1)", "-dash", "50%", "tab_sep"}[c.Rng.Intn(14)] + fmt.Sprintf("_%d", i)
+			c.Note("fs.punctuated-name")
+		}
+		m := &modeling.Material{Name: nm, SpecularHighlight: float64(10 + i),
 			DiffuseColor: color.RGBA{R: uint8(255 * (i & 1)), G: uint8(255 * ((i >> 1) & 1)), B: uint8(255 * ((i >> 2) & 1)), A: 255}}
 		if c.Rng.Intn(3) != 0 {
 			m.ColorTextureURI = &tex
@@ -888,6 +897,13 @@ func (c *Ctx) c05BigCase(nv, nt int, attr int, ranges int, span int, resave bool
 }
 
 func runC05(c *Ctx) {
+	// every attribute combination with runs of 150–700 faces (whole mesh and per material range): written f text
+	// crosses 4096-byte boundaries several times, the largest also 65536
+	for attr := 0; attr < 4; attr++ {
+		c.c05BigCase(40+c.Rng.Intn(60), 150+c.Rng.Intn(300), attr, 0, 40, true)
+		c.c05BigCase(40+c.Rng.Intn(60), 500+c.Rng.Intn(250), attr, 2+c.Rng.Intn(2), 40, true)
+	}
+	c.c05BigCase(300, 3000, 1, 1, 300, true) // uv only, one range of 3000 faces (> 65536 bytes of f text)
 	c.c05BigCase(1500, 5000, 3, 3, 1500, true) // quick and thorough: ~5000 faces per group, > 4096 v lines in the file
 	if c.Tier == "thorough" {
 		c.c05BigCase(4097, 4096, 0, 0, 4097, true)
